@@ -62,6 +62,7 @@ def _run(pid, tier, chk, M, S, bindir, col):
         S.panic_kinds(chk, col, bindir, tier)
         S.closure_work(chk, col, bindir, tier)
         S.captures_and_drop_panics(chk, col, bindir, tier)
+        S.process_state(chk, col, bindir, tier)
         S.explore_handshake(chk, col, bindir, tier)
         S.drop_race(chk, col, bindir, tier)
         S.faults(chk, col, bindir, tier)
